@@ -2,7 +2,7 @@
      <id> Q <op> <op> ...                      sequential run of Lin/Spec.v: prints the replies
      <id> O <inv> <ret|-> <op> <res|->         one operation of history <id> (lines of one history are contiguous)
      <id> E                                    end of history <id>: prints  lin <witness order> | nonlin | outoffuel
-   op  ::= incr | getset:V | setnx:V | get | set:V | del | hincrby:D | hget
+   op  ::= incr | getset:V | setnx:V | get | set:V | del | setox:V (SET k V NX) | setxx:V (SET k V XX) | hincrby:D | hget
          | lpush:V | lpop | llen | ldump | sadd:M | srem:M | scard | sdump
    res ::= iZ | bZ | n | ok | aZ,Z,...   (a alone = empty array) *)
 open Model
@@ -15,6 +15,7 @@ let parse_op (s : string) : op =
   match split_on ':' s with
   | ["incr"] -> OIncr | ["getset"; v] -> OGetSet (zi v) | ["setnx"; v] -> OSetNX (zi v)
   | ["get"] -> OGet | ["set"; v] -> OSet (zi v) | ["del"] -> ODel
+  | ["setox"; v] -> OSetIfAbsent (zi v) | ["setxx"; v] -> OSetIfPresent (zi v)
   | ["hincrby"; v] -> OHIncrBy (zi v) | ["hget"] -> OHGet
   | ["lpush"; v] -> OLPush (zi v) | ["lpop"] -> OLPop | ["llen"] -> OLLen | ["ldump"] -> OLDump
   | ["sadd"; v] -> OSAdd (zi v) | ["srem"; v] -> OSRem (zi v) | ["scard"] -> OSCard | ["sdump"] -> OSDump
